@@ -24,7 +24,7 @@ from fontTools.pens.t2CharStringPen import T2CharStringPen
 from fontTools.pens.ttGlyphPen import TTGlyphPen
 
 AXES = [("Weight", "wght"), ("Width", "wdth"), ("Custom", "CUST")]
-GROUP1 = ["A"]
+GROUP1 = ["A", "E"]
 GROUP2 = ["B", "acute"]
 
 # outlines: contours of (x, y, oncurve) base points, far enough apart that no two points can meet
@@ -32,7 +32,9 @@ A_SHAPE = [[(100, 0, 1), (100, 700, 1), (300, 900, 0), (500, 700, 1), (500, 0, 1
            [(200, 200, 1), (400, 200, 1), (400, 500, 1), (200, 500, 1)]]
 B_SHAPE = [[(100, 0, 1), (100, 800, 1), (400, 800, 1), (600, 600, 0), (600, 200, 0), (400, 0, 1)]]
 M_SHAPE = [[(0, 1000, 1), (200, 1300, 1), (300, 1000, 1)]]
-SHAPES = {"A": A_SHAPE, "B": B_SHAPE, "acute": M_SHAPE}
+# E moves rigidly (every point by the same offset per master), so that IUP optimisation drops points
+E_SHAPE = [[(100, 0, 1), (100, 300, 1), (100, 600, 1), (100, 900, 1), (400, 900, 1), (700, 900, 1), (700, 450, 1), (700, 0, 1), (400, 0, 1)]]
+SHAPES = {"A": A_SHAPE, "B": B_SHAPE, "acute": M_SHAPE, "E": E_SHAPE}
 
 
 def frac(p):
@@ -59,6 +61,9 @@ class Values:
 
 
 def _outline(vs, g, group, m):
+    if g == "E":
+        dx, dy = vs.get("E.dx", 1, 0, m), vs.get("E.dy", 1, 0, m)
+        return [[(x + dx, y + dy, on) for x, y, on in c] for c in SHAPES[g]]
     out = []
     for ci, contour in enumerate(SHAPES[g]):
         pts = []
@@ -122,7 +127,7 @@ def master_font(case, m, ttf, vs):
     present = [".notdef"] + GROUP1 + (["D"] if ttf else []) + ([] if style == "subset" else GROUP2)
     fb = FontBuilder(1000, isTTF=ttf)
     fb.setupGlyphOrder(present)
-    cmap = {0x41: "A", 0x42: "B", 0x301: "acute", 0x44: "D"}
+    cmap = {0x41: "A", 0x42: "B", 0x301: "acute", 0x44: "D", 0x45: "E"}
     fb.setupCharacterMap({cp: g for cp, g in cmap.items() if g in present})
     adv = {".notdef": (vs.get("adv.notdef", 1, 500, m), 0)}
     outlines = {}
@@ -181,7 +186,7 @@ def master_font(case, m, ttf, vs):
         fea += ["} kern;",
                 "feature mark { pos base A <anchor %d %d> mark @TOP; pos base B <anchor %d %d> mark @TOP; } mark;"
                 % (k("base.A.x", 300), k("base.A.y", 920), k("base.B.x", 330), k("base.B.y", 820)),
-                "table GDEF { GlyphClassDef [A B%s], , [acute], ; } GDEF;" % (" D" if ttf else "")]
+                "table GDEF { GlyphClassDef [A B E%s], , [acute], ; } GDEF;" % (" D" if ttf else "")]
         addOpenTypeFeaturesFromString(fb.font, "\n".join(fea))
     return fb.font
 
